@@ -519,8 +519,28 @@ func (e *Enc) computeSites() {
 			groups[k] = append(groups[k], site{in, in.Pos(), b.Index, i})
 		}
 	}
+	// package-qualified callee names ("call hmac.New#0") get their own numbering
+	for _, b := range e.fn.Blocks {
+		for i, in := range b.Instrs {
+			var c *ssa.CallCommon
+			switch in := in.(type) {
+			case *ssa.Call:
+				c = in.Common()
+			case *ssa.Defer:
+				c = in.Common()
+			}
+			if c == nil || c.IsInvoke() {
+				continue
+			}
+			if f := c.StaticCallee(); f != nil && f.Pkg != nil && f.Signature.Recv() == nil {
+				k := "qcall " + f.Pkg.Pkg.Name() + "." + f.Name()
+				groups[k] = append(groups[k], site{in, in.Pos(), b.Index, i})
+			}
+		}
+	}
 	e.siteOrd = map[ssa.Instruction]int{}
-	for _, g := range groups {
+	e.siteOrdQ = map[ssa.Instruction]int{}
+	for gk, g := range groups {
 		sort.SliceStable(g, func(i, j int) bool {
 			pi, pj := g[i].pos, g[j].pos
 			if pi.IsValid() && pj.IsValid() && pi != pj {
@@ -535,7 +555,11 @@ func (e *Enc) computeSites() {
 			return g[i].idx < g[j].idx
 		})
 		for n, s := range g {
-			e.siteOrd[s.in] = n
+			if strings.HasPrefix(gk, "qcall ") {
+				e.siteOrdQ[s.in] = n
+			} else {
+				e.siteOrd[s.in] = n
+			}
 		}
 	}
 }
